@@ -13,11 +13,11 @@ import (
 func init() {
 	register(&PropDef{
 		ID: "C18", Level: "exploration", Quick: 1500, Thorough: 150000, QuickCap: 110,
-		Rule: "each run = a table of 3-60 rows with a drawn number of cells (so that the scan spans 1..several response messages; the batch size is never assumed), one scanner task (full scan or 2-3 ranges) and 1-3 writer tasks (one writer per row; SetCell, DeleteFromColumn, DeleteFromRow, re-insert, ReadModifyWrite) on rows before, at and after the scan position, interleaved by the seeded scheduler (the stream's Send is where the table lock is free); oracle: ascending keys, no duplicates, every returned row is a state that row had inside the scan window, unwritten rows exact, final status OK; distinct = trace hash; non-trivial = a writer operation completed between two messages of the scan",
-		Real: []string{"bttest ReadRows (lock reversal around Send), MutateRow, ReadModifyWriteRow", "goleveldb snapshot iteration (memory and disk engines)"},
-		Stub: []string{"gRPC stream (recording stream whose Send yields)", "cooperative table mutex"},
+		Rule:   "each run = a table of 3-60 rows with a drawn number of cells (so that the scan spans 1..several response messages; the batch size is never assumed), one scanner task (full scan or 2-3 ranges) and 1-3 writer tasks (one writer per row; SetCell, DeleteFromColumn, DeleteFromRow, re-insert, ReadModifyWrite) on rows before, at and after the scan position, interleaved by the seeded scheduler (the stream's Send is where the table lock is free); oracle: ascending keys, no duplicates, every returned row is a state that row had inside the scan window, unwritten rows exact, final status OK; distinct = trace hash; non-trivial = a writer operation completed between two messages of the scan",
+		Real:   []string{"bttest ReadRows (lock reversal around Send), MutateRow, ReadModifyWriteRow", "goleveldb snapshot iteration (memory and disk engines)"},
+		Stub:   []string{"gRPC stream (recording stream whose Send yields)", "cooperative table mutex"},
 		Assume: []string{"a row written during the scan may show any state it had inside the scan window; a row that is non-empty in all of those states must be present", "btree engine excluded (it documents that it does not offer this)"},
-		Run: runC18,
+		Run:    runC18,
 	})
 	expectedProbes["C18"] = []string{"c18.multi_message", "c18.write_between_messages", "c18.row_deleted_during_scan", "c18.row_inserted_during_scan", "c18.returned_old_state", "c18.returned_new_state"}
 }
